@@ -1,9 +1,9 @@
 // Assumed contract of the dependency `hashbrown::HashMap`, as far as `Memoized::go` uses it (entry /
 // get / insert / remove on a finite map). CBMC does not get through hashbrown's SIMD probing and hashing
 // (measured: no result in 25 min), so under `cfg(kani)` with the `memoization` feature this module is
-// declared as `crate::hashbrown` by a cfg-guarded hook in /repo/src/lib.rs and shadows the extern crate
-// for the crate's own paths (`hashbrown::HashMap`, `hashbrown::hash_map::Entry`). Everything else the
-// crate takes from hashbrown is re-exported from the real crate. Natively (replay, tests) the real
+// declared as `crate::verif_hashmodel` by a cfg-guarded hook in /repo/src/lib.rs: the crate's `HashMap`
+// (the type of `InputRef::memos`) and, in combinator.rs, the path `hashbrown::hash_map::Entry` then name
+// this contract instead of the extern crate. Natively (replay, tests, every ordinary build) the real
 // hashbrown is used.
 //
 // The contract is the mathematical finite map: `entry(k)` is `Occupied` iff `k` is bound, `insert`
@@ -11,7 +11,6 @@
 // most CAP bindings; a harness that needs more is *undecided* (FW/ obligation + assume), never a pass.
 // This file is listed by the assumptions scan as an assumed (unverified) contract on a dependency.
 
-pub use ::hashbrown::{hash_set, HashSet};
 pub use self::hash_map::HashMap;
 
 pub mod hash_map {
